@@ -130,9 +130,10 @@ def everySecond : List BB → List BB
   | [x] => [x]
   | x :: _ :: rest => x :: everySecond rest
 
-/-- the repetition test of negamax.rs: the last `halfmoves` history entries, every second one. -/
+/-- the repetition test of negamax.rs: the last `halfmoves + 1` history entries (back to the position that
+followed the last irreversible move), every second one. -/
 def repCount (hist : List BB) (halfmoves : Int) (h : BB) : Nat :=
-  ((everySecond (hist.take halfmoves.toNat)).filter (· == h)).length
+  ((everySecond (hist.take (halfmoves.toNat + 1))).filter (· == h)).length
 
 /-- fuel handed to quiescence from inside negamax (a capture sequence removes a man each ply). -/
 def qFuel : Nat := 64
@@ -207,11 +208,12 @@ def negamax (lim : Limit) : Nat → Position → SState → Int → Int → Int 
       | none => none
       | some (v, q) => some (v, { st with seldepth := q.seldepth, nodes := q.nodes })
     else
-    let (stop, st) := shouldStop lim st
+    -- the first iteration always completes at the root (`!(is_root && stats.depth <= 1) && should_stop(stats)`)
+    let (stop, st) := if !(isRoot && st.depth ≤ 1) then shouldStop lim st else (false, st)
     if stop then some (0, st) else
     let is50 := p.halfmoves ≥ 100
     let is3 := repCount st.hist p.halfmoves p.hash ≥ (if isRoot then 3 else 2)
-    if is50 || is3 then some (Gen.DRAW_SCORE, st) else
+    if !isRoot && (is50 || is3) then some (Gen.DRAW_SCORE, st) else
     -- reverse futility pruning
     let staticEval := eval p
     if !isPv && !inCheck && depth < 4 && staticEval - 100 * depth ≥ beta then
